@@ -194,6 +194,16 @@ func (w *MWorld) applyCond(op Op, self string, el ElemFn, wt WorldText) []Alt {
 			m.Aux = auxModel(op.Args)
 		}
 		return one(n, self)
+	case "SetValidityPolicy", "SetPresentationPolicy", "SetEqualityPolicy", "SetUnmarshaler", "SetEvaluator":
+		kind := polKind[op.M]
+		if !ro {
+			if len(op.Args) == 0 || op.Args[0].K == "nil" {
+				delete(m.Pol, kind)
+			} else {
+				m.Pol[kind] = int(op.Args[0].I) % nSlots
+			}
+		}
+		return one(n, self)
 	case "SetLogLevel":
 		if !ro {
 			m.Log = logShift(m.Log, op.Args)
